@@ -1929,9 +1929,9 @@ impl ProtocolState {
                     if let MqttPacket::Publish(publish) = &*operation.packet {
                         if publish.qos == QualityOfService::ExactlyOnce {
                             if pubrec.reason_code as u8 >= 128 {
-                                if self.current_operation == Some(*operation_id) {
-                                    error!("[{} ms] handle_pubrec - received a failing pubrec with packet id {} while the pubrel of operation {} is being written", self.elapsed_time_ms, packet_id, operation_id);
-                                    return Err(GneissError::new_protocol_error("received a failing pubrec while the pubrel is being written"));
+                                if self.current_operation == Some(*operation_id) || self.high_priority_operation_queue.contains(operation_id) {
+                                    error!("[{} ms] handle_pubrec - received a failing pubrec with packet id {} while the pubrel of operation {} is waiting to be or being written", self.elapsed_time_ms, packet_id, operation_id);
+                                    return Err(GneissError::new_protocol_error("received a failing pubrec before the pubrel had been completely sent"));
                                 }
                                 return self.complete_operation_as_success(*operation_id, Some(OperationResponse::Publish(PublishResponse::Qos2(Qos2Response::Pubrec(pubrec)))));
                             } else {
@@ -2010,8 +2010,8 @@ impl ProtocolState {
                 if let MqttPacket::Publish(publish) = &*operation.packet {
                     if publish.qos == QualityOfService::ExactlyOnce {
                         if operation.qos2_pubrel.is_some() {
-                            if self.current_operation == Some(*operation_id) {
-                                error!("[{} ms] handle_pubcomp - received a pubcomp with packet id {} while the pubrel of operation {} is still being written", self.elapsed_time_ms, packet_id, operation_id);
+                            if self.current_operation == Some(*operation_id) || self.high_priority_operation_queue.contains(operation_id) {
+                                error!("[{} ms] handle_pubcomp - received a pubcomp with packet id {} while the pubrel of operation {} is still queued or being written", self.elapsed_time_ms, packet_id, operation_id);
                                 return Err(GneissError::new_protocol_error("received a pubcomp before the pubrel had been completely sent"));
                             }
                             return self.complete_operation_as_success(*operation_id, Some(OperationResponse::Publish(PublishResponse::Qos2(Qos2Response::Pubcomp(pubcomp)))));
